@@ -17,7 +17,7 @@ T15 == /\ IsEv("c15")
        /\ r.out \in {"ok", "err"}
        /\ r.alloc_in_proportion
        /\ r.kind = "roundtrip" => r.out = "ok" /\ r.reencodes
-       /\ r.kind = "atom" => /\ (r.out = "err") = Forbidden(r.struct, r.field, r.in_pair, r.class)
+       /\ r.kind = "atom" => /\ Optional(r.struct, r.field, r.in_pair, r.class) \/ (r.out = "err") = Forbidden(r.struct, r.field, r.in_pair, r.class)
                              /\ r.out = "ok" => r.reencodes
 T16 == /\ IsEv("c16")
        /\ r.out \in {"ok", "err"}
